@@ -231,6 +231,7 @@ def run(F, R, tier):
         r4.site("%s ignores results of %s" % (L.short(fn), ign))
         r4.require(sorted(ign) == sorted(want), (fn, "ignored-results"), "%s ignores the results of %s; reviewed set is %s (a storage call result must never be ignored)" % (L.short(fn), ign, want))
     r4.exception("let _ = document.insert_method(method, scope)", "reviewed", "the id was freed by the immediately preceding removal and insert_method's gate (C04-R2) admits it")
+    L.depends_on(r4, F, tier, ["C04-R2"], "the ignored re-insertion cannot be refused: insert_method refuses only an identifier that is occupied as a whole, and the removal just freed it")
     r4.exception("let _ = document.remove_method(&method_id)", "reviewed", "removes the method inserted a few lines earlier; None cannot occur")
     r4.floor(4)
 
